@@ -734,20 +734,11 @@ class AsyncFIXConnection:
                 if gap_fill_begin < msg_seq_num:
                     await self._send_gap_fill(gap_fill_begin, msg_seq_num)
 
-                # and then resent the replayMsg
-                replay_msg.set(FTag.PossDupFlag, "Y", replace=True)
-                if FTag.OrigSendingTime not in replay_msg:
-                    replay_msg[FTag.OrigSendingTime] = replay_msg[FTag.SendingTime]
-                del replay_msg[FTag.MsgType]
-                del replay_msg[FTag.BeginString]
-                del replay_msg[FTag.BodyLength]
-                del replay_msg[FTag.SendingTime]
-                del replay_msg[FTag.SenderCompID]
-                del replay_msg[FTag.TargetCompID]
-                del replay_msg[FTag.CheckSum]
-                # journaled bytes were decoded one char per byte (latin-1): the same
-                #   charset gives the original bytes back (utf-8 would encode them twice)
-                await self._send_replay(replay_msg, encoding="latin-1")
+                # and then resent the replayMsg: the journaled frame itself, so the
+                #   body stays byte for byte what it was (decoded message may be not
+                #   representable again, i.e. repeating groups unknown to protocol)
+                self._socket_writer.write(self._codec.encode_retransmission(enc_msg))
+                await self._socket_writer.drain()
 
                 gap_fill_begin = msg_seq_num + 1
 
